@@ -206,7 +206,9 @@ class PrintingStringIO(StringIO):
         return super().flush()
 
     def writelines(self, lines):
-        self._original_stdout.writelines(lines)
+        # StringIO.writelines hands each line to write() above, which also
+        # shows it on the console: ``lines`` may be an iterator, to be walked
+        # only once
         return super().writelines(lines)
 
 
